@@ -16,6 +16,9 @@ import LenaModel.Props.C14Tok
   no step of `Compose.__init__` writes to an object of an argument's `var_context`, and the `var_context` of the new
   `Compose` shares no object with any argument (`composeInitT_result_fresh`), whatever the number of arguments
   (one argument: the deep copy of line 352).
+* **constructing a `Combine` changes none of its arguments**: `combineInitT_fresh`.
+* **the name of a `Combine`**: `combine_name` — the keyword `name` whatever its value (also `""`), else the joined
+  names; `combine_name_reaches_context`.
 * the Boolean hypotheses as the driver computes them: `chainWFk_eq`, `chainOKk_eq` (equal to `chainWFb`, `chainOKb`). -/
 namespace Lena.C14
 open V
@@ -135,6 +138,103 @@ theorem current_attribute_reaches_context {fx : Bool} (v : Variable D) (a : Stri
     ∃ r, getSlot c (kVariable names) = some (.dict r) ∧ getSlot r (key names a) = some x := by
   obtain ⟨r, hr, hall⟩ := call_carries_attributes h
   exact ⟨r, hr, hall _ hac x hcur⟩
+
+/-! ## the name of a `Combine` -/
+
+/-- **The name of a `Combine`** (sentence 2, "`context.variable` carries the name … of the resulting variable", for
+`Combine`, which `combine_context` leaves out): whenever `Combine(v₁,…,vₙ, **kw)` without a `type` keyword can be
+constructed, its name is the keyword `name` if that keyword was given — WHATEVER value it has, the empty string and
+other falsy values included (line 289 tests `name is None`, not the truth value of the name) — and the variables'
+names joined with `"_"` if it was not. -/
+theorem combine_name (hn : NamesOK names) (hcomb : "combine" ∈ names) (hdim : "dim" ∈ names)
+    (tup : List D → D) (args : List (Option (Variable D))) (kw : Slots)
+    (hkt : getSlot kw (kType names) = none) {c : Variable D}
+    (h : mkCombine names tup args kw = .ok c) :
+    (∀ x, getSlot kw (kName names) = some x → nameOf names c = .ok x) ∧
+    (getSlot kw (kName names) = none → joinedName names (args.filterMap id) = nameOf names c) := by
+  have hct : kCombine names ≠ kType names := by
+    intro he; have := key_inj hcomb he; simp at this
+  have hcn : kCombine names ≠ kName names := by
+    intro he; have := key_inj hcomb he; simp at this
+  have hdt : kDim names ≠ kType names := by
+    intro he; have := key_inj hdim he; simp at this
+  have hdn : kDim names ≠ kName names := by
+    intro he; have := key_inj hdim he; simp at this
+  unfold mkCombine at h
+  split at h
+  · cases h
+  · split at h
+    · cases h
+    · simp only [] at h
+      split at h
+      · cases h
+      · rename_i name hname
+        split at h
+        · cases h
+        · rename_i hnodim
+          split at h
+          · cases h
+          · -- the `type` handed to `Variable.__init__` is absent, i.e. `""`
+            have hty : getSlot (setSlot (setSlot (dictUpdate (emptyD names.length) (setSlot kw (kName names) none))
+                (kDim names) (some (.int (List.filterMap id args).length))) (kCombine names)
+                (some (.seq true ((List.filterMap id args).map (fun v => V.dict v.varCtx))))) (kType names) = none := by
+              rw [getSlot_setSlot, getSlot_setSlot, getSlot_dictUpdate, getSlot_setSlot]
+              simp [Ne.symm hct, Ne.symm hdt, hkt, Ne.symm hn.name_ne_type]
+            rw [hty] at h
+            simp only [Option.getD_none, mkVariable, truthy, bne_self_eq_false, Bool.not_false] at h
+            simp only [if_true] at h
+            cases h
+            have hnm : nameOf names (⟨fun x => tup ((List.filterMap id args).map (fun v => v.getter x)),
+                dictUpdate (setSlot (emptyD names.length) (kName names) (some name))
+                  (setSlot (setSlot (setSlot (dictUpdate (emptyD names.length) (setSlot kw (kName names) none))
+                    (kDim names) (some (.int (List.filterMap id args).length))) (kCombine names)
+                    (some (.seq true ((List.filterMap id args).map (fun v => V.dict v.varCtx))))) (kType names) none)⟩ :
+                  Variable D) = .ok name := by
+              simp only [nameOf]
+              rw [getSlot_dictUpdate, getSlot_setSlot, getSlot_setSlot, getSlot_setSlot, getSlot_dictUpdate,
+                getSlot_setSlot, getSlot_setSlot]
+              simp [hn.name_ne_type, Ne.symm hcn, Ne.symm hdn]
+            refine ⟨fun x hx => ?_, fun hx => ?_⟩
+            · rw [hx] at hname
+              cases hname
+              exact hnm
+            · rw [hx] at hname
+              simp only [] at hname
+              rw [hname]
+              exact hnm.symm
+
+/-- … and that name is the one `context.variable` carries after the `Combine` has been applied (to any value) -/
+theorem combine_name_reaches_context (hn : NamesOK names) (hcomb : "combine" ∈ names) (hdim : "dim" ∈ names)
+    (tup : List D → D) (args : List (Option (Variable D))) (kw : Slots)
+    (hkt : getSlot kw (kType names) = none) {c : Variable D} (h : mkCombine names tup args kw = .ok c)
+    (x : V) (hx : getSlot kw (kName names) = some x)
+    {fx : Bool} {y : Value D} {d : D} {ctx : Slots} (hc : call names fx c y = .ok (d, ctx)) :
+    ∃ r, getSlot ctx (kVariable names) = some (.dict r) ∧ getSlot r (kName names) = some x := by
+  have hnm := (combine_name hn hcomb hdim tup args kw hkt h).1 x hx
+  obtain ⟨r, hr, hall⟩ := call_carries_attributes hc
+  refine ⟨r, hr, hall _ hn.name_ne_compose x ?_⟩
+  unfold nameOf at hnm
+  split at hnm
+  · rename_i z hz; cases hnm; exact hz
+  · cases hnm
+
+end
+
+/-- `Combine(x, y, name="")` is constructed and its name is `""`, not `x_y` (alphabet
+`combine, compose, dim, getter, name, ta, type, variable`; the hypotheses of `combine_name` are satisfiable) -/
+example :
+    let ns := ["combine", "compose", "dim", "getter", "name", "ta", "type", "variable"]
+    let x : Variable Nat := ⟨(· + 1), setSlot (emptyD 8) 4 (some (.str "x"))⟩
+    let y : Variable Nat := ⟨(2 * ·), setSlot (setSlot (emptyD 8) 4 (some (.str "y"))) 6 (some (.str "ta"))⟩
+    (match mkCombine ns (fun l => l.sum) [some x, some y] (setSlot (emptyD 8) 4 (some (.str ""))) with
+     | .ok c => (match nameOf ns c with | .ok n => some n | .error _ => none,
+                 match call ns true c (.bare 5) with
+                 | .ok (d, ctx) => (d, match getSlot ctx 7 with | some (.dict r) => getSlot r 4 | _ => none)
+                 | .error _ => (0, none))
+     | .error _ => (none, 0, none)) = (some (.str ""), 16, some (.str "")) := by rfl
+
+section
+variable {names : List String} {D : Type}
 
 /-! ## the Boolean hypotheses as the driver computes them -/
 
@@ -263,6 +363,38 @@ theorem composeInitT_result_fresh {fx : Bool} {next : Nat} {vars : List (Nat × 
       have hall : AllS (fun t => t ∈ tokensS r.ctx) r.ctx := fun t ht => ht
       have := AllS_getT hall hres t ht
       exact (h2 r hmem w hw).2 t (by simp [tokens, this])
+
+/-! ### `Combine.__init__` on identities -/
+
+theorem eraseL_map_dict (vars : List (Nat × TSlots)) :
+    eraseL (vars.map (fun w => TV.dict w.1 w.2)) = vars.map (fun w => V.dict (eraseS w.2)) := by
+  induction vars with
+  | nil => simp [eraseL]
+  | cons w r ih => simp [eraseL, erase, ih]
+
+/-- **Constructing `Combine(v₁, …, vₙ)` keeps each variable's description**: the tuple `var_context["combine"]` of the
+new `Combine` is made of new objects only (tokens from the counter on), so it shares no object with the `var_context`
+of any argument (a later change of the `Combine`'s context cannot reach them), and on values it is the tuple of the
+arguments' `var_context`s (the `combine` slot of `mkCombine`, see `combine_context`).  Hypothesis: the arguments'
+objects exist when the constructor is called (their tokens are below the counter). -/
+theorem combineInitT_fresh (next : Nat) (vars : List (Nat × TSlots))
+    (hold : ∀ w ∈ vars, ∀ t ∈ tokens (.dict w.1 w.2), t < next) :
+    (∀ w ∈ vars, ∀ t ∈ tokens (combineInitT next vars).1, t ∉ tokens (.dict w.1 w.2)) ∧
+    (∀ t ∈ tokens (combineInitT next vars).1, next ≤ t ∧ t < (combineInitT next vars).2) ∧
+    erase (combineInitT next vars).1 = .seq true (vars.map (fun w => V.dict (eraseS w.2))) := by
+  have hsp := deepcopyT_spec next (.tuple (vars.map (fun w => TV.dict w.1 w.2)))
+  refine ⟨fun w hw t ht hin => ?_, fun t ht => hsp.2.1 t ht, ?_⟩
+  · have h1 := (hsp.2.1 t ht).1
+    have h2 := hold w hw t hin
+    omega
+  · unfold combineInitT
+    rw [hsp.2.2]
+    simp [erase, eraseL_map_dict]
+
+/-- `Combine(x)` of the variable `exVc` (objects 0, 1), counter 5: the tuple holds the copy made of the objects 5, 6 -/
+example : combineInitT 5 [(0, exVc)] =
+    (.tuple [.dict 5 [none, some (.str "v"), none, some (.dict 6 [none, some (.str "v"), none, none, none, none]),
+      some (.str "ta"), none]], 7) := by rfl
 
 /-! ### a concrete instance: `Compose(x)` of ONE variable (`exVc` of `Props/C14Tok.lean`: objects 0, 1), counter 5 -/
 
